@@ -80,6 +80,8 @@ Definition count_hash (h : bytes) (l : list ste) : nat := length (filter (fun e 
 (* C04: step-wise placement check.
    prev, cur: consecutive observations; o: the operation between them; seen: every entry ever
    observed (to recognise shared tx hashes). *)
+Definition k_refunded_final := str [67;48;52;47;114;101;102;117;110;100;101;100;45;115;116;97;116;117;115;45;99;104;97;110;103;101;100]. (* C04/refunded-status-changed *)
+
 Definition mon_C04_step (step : nat) (o : val) (prev cur : obs) (seen : list ste) : list val :=
   let cur_all := all_entries cur in
   let prev_all := all_entries prev in
@@ -108,7 +110,17 @@ Definition mon_C04_step (step : nat) (o : val) (prev cur : obs) (seen : list ste
               if bad then
                 [viol (if Nat.ltb 1 (count_hash (s_txhash e) seen) then k_status_shared else k_status) step
                       [VB (s_chain e); vNat (s_id e); vNat st]]
-              else []) cur_all.
+              else []) cur_all
+  ++
+  (* "refunded" is final: a hash reported as refunded stays reported as refunded (a restart loses the statuses: C15) *)
+  (if kind =? 8 then []
+   else flat_map (fun x : bytes * N =>
+                    if N.eqb (snd x) ST_REFUNDED then
+                      match find (fun y : bytes * N => beqb (fst y) (fst x)) (ob_status cur) with
+                      | Some y => if N.eqb (snd y) ST_REFUNDED then [] else [viol k_refunded_final step [VB (fst x); vNat (snd y)]]
+                      | None => [viol k_refunded_final step [VB (fst x)]]
+                      end
+                    else []) (ob_status prev)).
 
 Fixpoint mon_fold {A} (f : nat -> val -> obs -> obs -> A -> list val * A) (step : nat) (ops : list val) (outs : list val)
          (prev : obs) (acc : A) : list val :=
@@ -523,6 +535,13 @@ Definition mon_C11_step (step : nat) (o : val) (prev cur : obs) (t : track) : li
                   else [viol k_c11_sched step [VI amount; VI fee; VI (s_token e); VI (s_fee e); VI (s_comm e)]]
               | None => []
               end
+          | [], _ =>
+              (* the event was not applied (no transfer was scheduled): then it changed no balance and no supply either *)
+              if same_lists enc_ste (ob_pool prev) (ob_pool cur) then
+                if same_lists (fun x : bytes * bytes * Z => VL [VB (fst (fst x)); VB (snd (fst x)); VI (snd x)]) (ob_bal prev) (ob_bal cur)
+                   && same_lists (fun x : bytes * Z => VL [VB (fst x); VI (snd x)]) (ob_supply prev) (ob_supply cur) then []
+                else [viol k_c11_failed step [VI amount; VI fee]]
+              else []
           | _, _ => []
           end
         else []
@@ -553,7 +572,8 @@ Definition c19_records (step : nat) (prev cur : obs) (t : track) (chain coin : b
                     if Nat.ltb 1 (count_hash (s_txhash e) (all_entries prev)) then [] else
                     match find (fun r : bytes * (Z * Z) => beqb (fst r) (s_txhash e)) (ob_feerec cur) with
                     | Some (_, (vc, ef)) =>
-                        if (vc =? s_comm e) && (0 <=? ef) && (ef <=? s_fee e) then []
+                        if (vc =? s_comm e) && (0 <=? ef) && (ef <=? s_fee e)
+                           && (beqb (s_refund_chain e) b_minter || (ef =? s_fee e)) then []
                         else [viol (if 18 <? ti_dec ti then k_c19_record_gt18 else k_c19_record) step [VB (s_txhash e); VI ef; VI (s_fee e)]]
                     | None => [viol k_c19_record step [VB (s_txhash e)]]
                     end) (b_txs b)
